@@ -3,8 +3,8 @@ package main
 // Instantiation of sketches and the queries run on instantiations (TPL-1 parse, TPL-3 hole completeness).
 
 import (
-	"go/ast"
 	"fmt"
+	"go/ast"
 	"go/parser"
 	"go/token"
 	"os"
